@@ -287,6 +287,7 @@ func checkC01(r *core.Run, p *core.Program) {
 	r.Rule("C01.array-tables", "for every array type the encoder's code table, plane table and short-array table agree with the decoder: the long-form code maps back to the same array type in the plane the encoder uses, each short-array code decodes to the same element type with byte count = element count * element size, the short-form length mask equals the encoder's maximum short length, and the 16 short string codes decode length = code - base.")
 	r.Rule("C01.chunk-header", "the chunk header is written as (count << 1) | continuation and read as (header >> 1, header & 1 == 1).")
 	r.Rule("C01.time-table", "each compact-time kind is written with the code whose decoder case reads the same kind.")
+	r.Rule("C01.encoder-state", "the CBE encoder and writer re-initialise, on every path of their per-document entry points, every field they modify while encoding (a writer that keeps the previous document's string sink sends array contents to the wrong destination).")
 	r.NotDecide("value equality of payloads (integer width selection is C22; float bit patterns, NaN payloads, time fields and the third-party ULEB128/compact-float/compact-time codecs are runtime-valued)")
 	r.Assume("negative zero written as the negative 8-bit integer form with value 0 and float specials written as decimal-float specials cross event families by design (CE specification); they are exempt from the same-family rule")
 
@@ -536,6 +537,92 @@ func checkC01(r *core.Run, p *core.Program) {
 			return true
 		})
 		r.Check("C01.chunk-header", "cbe.Reader.ReadArrayChunkHeader", f.Decl.Pos(), ok, "chunk header must be read as (header >> 1, header&1 == 1)")
+	}
+
+	// ---- float16: the bits the encoder's exactness test keeps must be exactly the bits the writer emits
+	if f := findFn(p, "cbe", "Encoder.OnFloat"); f != nil {
+		var mask uint64
+		ast.Inspect(f.Decl.Body, func(n ast.Node) bool {
+			if be, ok := n.(*ast.BinaryExpr); ok && be.Op == token.AND {
+				if k, ok := constUint(info, be.Y); ok && k > 0xffff {
+					mask = k
+				}
+			}
+			return true
+		})
+		shift := int64(-1)
+		if w := findFn(p, "cbe", "Writer.WriteFloat16"); w != nil {
+			ast.Inspect(w.Decl.Body, func(n ast.Node) bool {
+				if be, ok := n.(*ast.BinaryExpr); ok && be.Op == token.SHR {
+					if k, ok := constInt(info, be.Y); ok {
+						shift = k
+					}
+				}
+				return true
+			})
+		}
+		r.Check("C01.widths", "cbe.Encoder.OnFloat|float16 mask matches WriteFloat16", f.Decl.Pos(), shift == 16 && mask == 0xffff0000,
+			fmt.Sprintf("the 16-bit float form writes the float32 pattern >> %d, but the exactness test keeps the bits 0x%08x: bits that pass the test are dropped when written (silent loss of precision)", shift, mask))
+		if rd := findFn(p, "internal/common", "Float32FromFloat16Bits"); rd != nil {
+			okShift := false
+			ast.Inspect(rd.Decl.Body, func(n ast.Node) bool {
+				if be, ok := n.(*ast.BinaryExpr); ok && be.Op == token.SHL {
+					if k, ok := constInt(rd.Pkg.TypesInfo, be.Y); ok && k == 16 {
+						okShift = true
+					}
+				}
+				return true
+			})
+			r.Check("C01.widths", "internal/common.Float32FromFloat16Bits|<<16", rd.Decl.Pos(), okShift, "the decoder must place the 16 stored bits in the upper half of the float32 pattern")
+		}
+	}
+	// ---- scratch buffer sizing: code byte + payload
+	for _, f := range funcsOf(pkg) {
+		storesCode, slices1 := false, false
+		var expand *ast.CallExpr
+		ast.Inspect(f.Decl.Body, func(n ast.Node) bool {
+			switch s := n.(type) {
+			case *ast.AssignStmt:
+				if len(s.Lhs) == 1 {
+					if ix, ok := s.Lhs[0].(*ast.IndexExpr); ok {
+						if fld := fieldOf(info, ix.X); fld != nil && fld.Name() == "Buffer" {
+							if k, isC := constInt(info, ix.Index); isC && k == 0 {
+								storesCode = true
+							}
+						}
+					}
+				}
+			case *ast.SliceExpr:
+				if fld := fieldOf(info, s.X); fld != nil && fld.Name() == "Buffer" && s.Low != nil {
+					if k, isC := constInt(info, s.Low); isC && k == 1 {
+						slices1 = true
+					}
+				}
+			case *ast.CallExpr:
+				if cal := callee(info, s); cal != nil && cal.Name() == "ExpandBufferTo" {
+					expand = s
+				}
+			}
+			return true
+		})
+		if storesCode && slices1 && expand != nil {
+			ok := false
+			if be, isB := stripParens(expand.Args[0]).(*ast.BinaryExpr); isB && be.Op == token.ADD {
+				if k, isC := constInt(info, be.Y); isC && k >= 1 {
+					ok = true
+				}
+				if k, isC := constInt(info, be.X); isC && k >= 1 {
+					ok = true
+				}
+			}
+			r.Check("C01.widths", f.Name()+"|buffer holds code byte + payload", expand.Pos(), ok, "the scratch buffer is sized "+exprStr(expand.Args[0])+" but holds the type code at [0] plus the payload at [1:]: when the payload exactly fills the buffer its last byte is silently dropped")
+		}
+	}
+	// ---- encoder/writer carry nothing from one document into the next (stale sinks would misplace array contents)
+	for _, spec := range resetSpecs {
+		if spec.rel == "cbe" && (spec.typ == "Writer" || spec.typ == "Encoder") {
+			checkResetSpec(r, p, "C01.encoder-state", spec)
+		}
 	}
 
 	// ---- time table
